@@ -1,6 +1,7 @@
 package main
 
 import (
+	"github.com/gcash/bchd/chaincfg"
 	"strings"
 
 	"github.com/gcash/bchd/bchec"
@@ -164,6 +165,12 @@ func runC01(c *Ctx) {
 
 func runC02(c *Ctx) {
 	c.Conc = true // stateless calls are also replayed from several goroutines at once
+	// two custom networks whose legacy version bytes collide (P2PKH of one = P2SH of the other, both ways): a
+	// Base58Check string carrying such a byte is undeterminable and must be refused (the Config event logs the id sets)
+	chaincfg.Register(&chaincfg.Params{Name: "verifa", Net: 0x76657261, LegacyPubKeyHashAddrID: 0x1c, LegacyScriptHashAddrID: 0x2a,
+		HDPrivateKeyID: [4]byte{0x0f, 0x0e, 0x0d, 0x01}, HDPublicKeyID: [4]byte{0x0f, 0x0e, 0x0d, 0x02}, CashAddressPrefix: "verifa"})
+	chaincfg.Register(&chaincfg.Params{Name: "verifb", Net: 0x76657262, LegacyPubKeyHashAddrID: 0x2a, LegacyScriptHashAddrID: 0x1c,
+		HDPrivateKeyID: [4]byte{0x0f, 0x0e, 0x0d, 0x03}, HDPublicKeyID: [4]byte{0x0f, 0x0e, 0x0d, 0x04}, CashAddressPrefix: "verifb"})
 	c.Prelude = []Event{{"op": "Config"}}
 	r := c.Rng
 	// F1 (TLC-generated): strings with valid checksums over all version bytes x lengths
@@ -312,7 +319,7 @@ func runC02(c *Ctx) {
 	// F3: Base58Check over all version bytes x lengths 0..40
 	for ver := 0; ver < 256; ver++ {
 		for ln := 0; ln <= 40; ln++ {
-			if !c.Thorough() && ln != 20 && (ver*41+ln+int(c.Seed))%9 != 0 {
+			if !c.Thorough() && ln != 20 && (ver*41+ln+int(c.Seed))%9 != 0 && !(ver == 0x1c || ver == 0x2a) {
 				continue
 			}
 			b := append([]byte{byte(ver)}, randBytes(r, ln)...)
